@@ -335,6 +335,68 @@ func checkC13(c *CaseC13, fl *Fails) {
 }
 
 func sweepC13(tier string, emit func(*CaseC13)) {
+	// one column, every order of three and four storeys out of {1, 2, 3, 10} (a stack listed bottom-up, top-down,
+	// jumping down and up again)
+	zs := []int64{1, 2, 3, 10}
+	var perm func(cur []int64, used int)
+	perm = func(cur []int64, used int) {
+		if len(cur) >= 3 {
+			c := &CaseC13{E: 25, Off: 0, OutV: 21}
+			for _, z := range cur {
+				c.Tiles = append(c.Tiles, Tile{H: 20, X: 931277, Y: 412899, V: 20, Z: z})
+			}
+			emit(c)
+		}
+		if len(cur) == 4 {
+			return
+		}
+		for i, z := range zs {
+			if used&(1<<uint(i)) == 0 {
+				perm(append(append([]int64(nil), cur...), z), used|1<<uint(i))
+			}
+		}
+	}
+	perm(nil, 0)
+	// a tile whose covering range leaves the output domain at its bottom / top by 1..2 metres, listed AFTER a finer tile
+	// from its valid part (and alone): the whole call must fail
+	for _, v := range []int64{0, 1, 2, 5} {
+		for _, e := range []int64{24, 25, 26} {
+			for _, outV := range []int64{3, 10, 20, 25} {
+				for _, top := range []bool{false, true} {
+					for delta := int64(-2); delta <= 2; delta++ {
+						if tier == "quick" && (delta == 0 || (v == 5 && e != 25)) {
+							continue
+						}
+						target := -(int64(1) << uint(outV))
+						if top {
+							target = (int64(1) << uint(outV)) - 1
+						}
+						z := int64(0)
+						lo := ref.KeyCell(v, z, e, 0).Lo
+						want := ref.SpatialCell(outV, target).Lo
+						d := new(big.Rat).Sub(lo, want)
+						fl := new(big.Int).Div(d.Num(), d.Denom())
+						if !fl.IsInt64() {
+							continue
+						}
+						first := Tile{H: 1, X: 0, Y: 1, V: v, Z: z}
+						inner := first
+						inner.V = v + 2
+						inner.Z = 3
+						if top {
+							inner.Z = 0
+						}
+						for _, tiles := range [][]Tile{{inner, first}, {first}, {inner, first, inner}} {
+							c := &CaseC13{E: e, Off: fl.Int64() + delta, OutV: outV, Tiles: tiles}
+							if c13Bounded(c) {
+								emit(c)
+							}
+						}
+					}
+				}
+			}
+		}
+	}
 	// "native" tiles: horizontal zoom = vertical zoom = requested output zoom, for every zoom 20..35, with the default
 	// altitude reference (exponent 25, offset 0) and its neighbours - the shape a direct-emission shortcut would accept
 	for z := int64(20); z <= 35; z++ {
